@@ -147,6 +147,10 @@ func loadKnown(path string) (*KnownFile, error) {
 // Finish applies floors and known findings, prints the verdict lines, writes
 // the evidence and replay files and returns the process exit code.
 func (c *Check) Finish(verifDir string) int {
+	// a check that evaluated nothing must not pass
+	if len(c.Results) == 0 {
+		c.Results = append(c.Results, Result{Ob: c.Prop + ".empty", Construct: "obligations", Status: Unresolved, Detail: "the check evaluated no obligation"})
+	}
 	// floors
 	for _, ob := range c.order {
 		ri := c.rules[ob]
